@@ -28,7 +28,7 @@ def run(ctx):
     plan = PLANS[ctx.tier]
     total = dict(n=0, valid=0, strict=0, model_c02_false=0, model_c17_false=0, explicit_mismatch=0, unparsed=0, parts=0)
     viol, lenient, used, features, actions = {}, {}, {}, set(), {}
-    consts = {}
+    consts, all_samples = {}, []
     for tag, base, kv in plan:
         cfg = S.write_cfg(ctx, base, f"c02_{tag}.cfg", **kv)
         consts[tag] = S.constants_of(cfg)
@@ -45,10 +45,9 @@ def run(ctx):
                 used.setdefault(k, set()).update(v)
             features.update(r["features"])
             S.merge_counts(actions, r["actions"])
-            for s in r["samples"]:
-                if len(ctx.samples) < 3:
-                    ctx.samples.append(s)
+            all_samples.extend(r["samples"])
         os.remove(res.out_path)
+    ctx.samples = sorted(all_samples, key=S.case_key)[:3]
     if total["unparsed"]:
         raise MachineryError(f"{total['unparsed']} emitted records could not be parsed")
     if total["explicit_mismatch"]:
@@ -96,6 +95,9 @@ def run(ctx):
     ctx.extra["protos"] = total
     ctx.extra["constants"] = consts
     ctx.extra["catalogue_leaves_used"] = S.catalogue_coverage(used)
+    undrawn = {k: v for k, v in ctx.extra["catalogue_leaves_used"].items() if v[0] < v[1]}
+    if undrawn:
+        raise MachineryError(f"catalogue leaves never drawn in this run (kind: [drawn, size]): {undrawn}")
     ctx.extra["leaf_entry_point_roundtrips"] = n_leaf
     ctx.extra["divergences"] = {}
     ctx.exhaustive = True
